@@ -155,6 +155,9 @@ def property_fails_on(op, impl):
                     m, segs[-1], status, cfgw)
     if m == "GET" and under_api and status == 403:
         return "read-only view /%s answered 403" % "/".join(segs)
+    if m == "GET" and not (segs and segs[0] == "config") and ("P:" in reqs or notes != "-" or cfgw != "0"):
+        return ("GET /%s changed state without any admin check: upstream requests %s, notifications %s, config written %s"
+                % ("/".join(segs), reqs, notes, cfgw))
     return None
 
 
